@@ -114,4 +114,31 @@ theorem miehe3_eq_D2 (l e d s : Fin 3 → K) (t x y : M3 K)
     t1, t2, t3, x1, x2, x3, y1, y2, y3]
   ring
 
+/-- planar matrices: no coupling between the plane (indices 0,1) and the axis 2 -/
+def Planar (A : M3 K) : Prop := A.a02 = 0 ∧ A.a12 = 0 ∧ A.a20 = 0 ∧ A.a21 = 0
+
+/-- 2D version of `miehe3_eq_D2`: for planar symmetric `t, x, y` only the in-plane pair of eigenvalues
+interacts, `l 0 ≠ l 1` suffices. -/
+theorem miehe2_eq_D2 (l e d s : Fin 3 → K) (t x y : M3 K)
+    (ht : IsSym t) (hx : IsSym x) (hy : IsSym y) (pt : Planar t) (px : Planar x) (py : Planar y)
+    (h01 : l 0 ≠ l 1) :
+    miehe2 (4 * s 0) (4 * s 1) (4 * s 2) (xi (l 0) (l 1) (e 0) (e 1) (d 1)) (xi (l 1) (l 0) (e 1) (e 0) (d 0)) t x y
+    = 4 * D2 l e d s t x y := by
+  obtain ⟨t1, t2, t3⟩ := ht
+  obtain ⟨x1, x2, x3⟩ := hx
+  obtain ⟨y1, y2, y3⟩ := hy
+  obtain ⟨t4, t5, t6, t7⟩ := pt
+  obtain ⟨x4, x5, x6, x7⟩ := px
+  obtain ⟨y4, y5, y6, y7⟩ := py
+  have k011 := g2_ikk l e d s 0 1 (by decide)
+  have k100 := g2_ikk l e d s 1 0 (by decide)
+  have k001 := g2_iik l e d s 0 1 (by decide) h01
+  have k110 := g2_iik l e d s 1 0 (by decide) h01.symm
+  have k010 := g2_iki l e d s 0 1 (by decide) h01
+  have k101 := g2_iki l e d s 1 0 (by decide) h01.symm
+  simp only [D2, Fin.sum_univ_three, ent, miehe2, miehePair, g2_iii, k011, k100, k001, k110, k010, k101,
+    t1, t2, t3, x1, x2, x3, y1, y2, y3, t4, t5, t6, t7, x4, x5, x6, x7, y4, y5, y6, y7,
+    mul_zero, zero_mul, add_zero, zero_add]
+  ring
+
 end TfelVerif.C24
